@@ -66,3 +66,20 @@ claim('C14',
        'the hand-read meaning of Q_MUTEX_ENTER/LEAVE (enter returns only after a successful trylock with depth+1; leave decrements), pthread recursive-mutex semantics.',
   technique='source-to-Coq translation of lock structure (clang AST) + verified path checker evaluated per function by vm_compute',
   design='5.14')
+claim('C19',
+  text='Machine-checked theorems (Coq 8.16, closed under the global context), for all strings: buffer-level models of qstrtrim/_head/_tail, qstrunchar, qstrreplace (tn/tr/sn/sr), '
+       'qstrcpy, qstrncpy, qstrdup_between, qmemdup, qstrgets, qstrrev, qstrupper, qstrlower, qstrtok, qstrtokenizer (and, as an extra, qstr_comma_number for every int) equal plain reference definitions on lists (drop-while trimming, '
+       'flat_map token replace, leftmost non-overlapping string replace which is also shown to be the unique output of a declarative relation, firstn(size-1)++[0] copies, '
+       'split-on-delimiters with the documented missing empty last field, line up to LF without CRs within size-1 characters), and every read/write of the model stays inside the '
+       'buffer the contract covers (strlen+1 bytes for in-place routines, size bytes for the bounded copies and qstrgets, maxstrlen+1 bytes for the replace output: '
+       '|out| <= (len/tok)*word + len%tok proved for all inputs with a non-empty search string). In-place replace is stated with the result length explicit (fits iff |out|+1 <= array). '
+       'The models are tied to qstring.c by running the extracted model and the implementation on the same inputs: all strings of length <= 4 (quick) / 5 (thorough) over '
+       '{space, tab, CR, LF, a, A, z, comma, quote, 0x80, 0xff}, all sizes 0..n+2 and nbytes 0..n+1 for the copies, all (src, token, word) triples of small length in the four modes, '
+       'all offsets, random long inputs; arguments in exact-size guard-page buffers (both before- and after-layout for in-place routines), malloc wrapped to exact-size guard blocks.',
+  note='Trusted: Coq kernel, extraction (ExtrOcamlBasic only), gcc, harness/h_str.c (guard pages, --wrap=malloc,free in the harness build only), ocaml/d_str.ml, checks/c19.py. '
+       'char is signed (x86-64); lengths below 2^31 (int maxstrlen/len/offset in the C code are unbounded in the model). Contract preconditions in the theorems: non-empty search string in '
+       'string mode (empty: division by zero or endless loop, witnessed by C19_replace_sn_empty_token_refuted), size >= 1 for qstrgets, nbytes within the source array for qstrncpy, '
+       'offset within the string for qstrtok. Overlapping src/dst of qstrcpy/qstrncpy, qstrdupf, qstrcatf, qstrunique, qstr_conv_encoding, qstrtest, '
+       'qstr_is_email, qstr_is_ip4addr are not modelled. Model tied to code by differential execution, not by a C semantics.',
+  technique='Rocq proof by induction over buffer-level loop models (indices in Z, out-of-buffer access = Crash) + finite byte sweeps (vm_compute) for the signed-char case maps; extracted-model and extracted-spec correspondence on bounded-exhaustive and random inputs',
+  design='5.19')
